@@ -341,16 +341,30 @@ class Spec:
             dur, clients, par = 12000, 8, 4
         else:
             seeds = [ctx.rng.randrange(1, 10 ** 6)]
-            dur, clients, par = 3000, 6, 4
+            dur, clients, par = 6000, 6, 4
         if boost:
             seeds = seeds + [ctx.rng.randrange(1, 10 ** 6) for _ in range(len(seeds) + 1)]
         jobs = []
+        # corpus first: configurations that exposed defects before
+        cdir = os.path.join(vlib.VERIF, "corpus", "locks")
+        ncorp = 0
+        if os.path.isdir(cdir):
+            for f in sorted(os.listdir(cdir)):
+                if f.endswith(".json"):
+                    c = json.load(open(os.path.join(cdir, f)))
+                    a = c["argv"]
+                    for k in range(int(c.get("repeat", 1))):
+                        jobs.append((a[0], a[1], int(a[2]), int(a[3]), int(a[4]) + k, a[5]))
+                        ncorp += 1
         for s in seeds:
             for (mode, pool) in COMBOS:
                 jobs.append((mode, pool, clients, dur, s))
             # a second thread-per-connection pass focused on suspend/resume + stop (short, many stops)
             for mode in ("select", "poll"):
-                jobs.append((mode, "tpc", clients, dur // 3, s + 1))
+                jobs.append((mode, "tpc", clients, dur // 3, s + 1, "add,susp,abort"))
+            # quiet stop: no traffic at the time of the stop, only the inter-thread channel wakes the threads
+            for (mode, pool) in (("select", "4"), ("poll", "1"), ("epoll", "4"), ("poll", "tpc")):
+                jobs.append((mode, pool, 3, 700, s + 2, FEATURES + ",quiet"))
         t0 = time.time()
         with ThreadPoolExecutor(max_workers=par) as ex:
             runs = list(ex.map(lambda j: self.run_one(*j), jobs))
@@ -362,7 +376,7 @@ class Spec:
                        "MHD_stop_daemon under load with a 10 s watchdog); non-trivial = served >= 1 request and the stop returned" % (clients, dur),
                "samples": [" ".join(r["argv"]) + " -> " + " ".join("%s=%s" % (k, r["res"].get(k)) for k in ("stop_ms", "req_ok", "susp", "auth_chk", "conn_add", "conn_tcp"))
                            for r in runs[:3]],
-               "exhaustive": False,
+               "exhaustive": False, "corpus_runs": ncorp,
                "PROVED_by_lean_over_regenerated_table": {
                    "what": "context certificate; lock order ranked => no wait cycle / progress in the abstract thread model; no lock "
                            "held at join/select/poll/epoll_wait; lockset discipline (partial, with witness); writes protected; callbacks; "
